@@ -199,6 +199,8 @@ pub fn guarded<T>(f: impl FnOnce() -> T) -> Result<T, String> {
 
 pub struct Slot {
     started: Mutex<Option<(Instant, String)>>,
+    /// what the job is doing right now (the input of the call in progress)
+    note: Mutex<String>,
     tid: u64,
 }
 
@@ -231,7 +233,7 @@ fn thread_cpu_seconds(tid: u64) -> Option<f64> {
 
 thread_local! {
     static MY_SLOT: Arc<Slot> = {
-        let s = Arc::new(Slot { started: Mutex::new(None), tid: my_tid() });
+        let s = Arc::new(Slot { started: Mutex::new(None), note: Mutex::new(String::new()), tid: my_tid() });
         SLOTS.lock().unwrap().push(s.clone());
         s
     };
@@ -239,6 +241,14 @@ thread_local! {
 
 pub fn watch_begin(desc: impl FnOnce() -> String) {
     MY_SLOT.with(|s| *s.started.lock().unwrap() = Some((Instant::now(), desc())));
+}
+/// record the call about to be made, so that a hang can name it
+pub fn watch_note(s: &str) {
+    MY_SLOT.with(|sl| {
+        let mut g = sl.note.lock().unwrap();
+        g.clear();
+        g.push_str(s);
+    });
 }
 pub fn watch_end() {
     MY_SLOT.with(|s| *s.started.lock().unwrap() = None);
@@ -274,7 +284,14 @@ pub fn start_watchdog() {
                         }
                         let cpu_used = cpu_now.map(|c| c - e.1).unwrap_or(0.0);
                         if cpu_used > cpu_limit || t0.elapsed() > wall_limit {
-                            let d = format!("{} (cpu {:.0}s, wall {:.0}s in one job)", desc, cpu_used, t0.elapsed().as_secs_f64());
+                            let note = s.note.lock().unwrap().clone();
+                            let d = format!(
+                                "{} then, in progress: {} (cpu {:.0}s, wall {:.0}s in one job)",
+                                desc,
+                                crate::ops::esc(&note),
+                                cpu_used,
+                                t0.elapsed().as_secs_f64()
+                            );
                             if let Some(h) = HANG_HANDLER.lock().unwrap().as_ref() {
                                 h(&d);
                             }
@@ -356,6 +373,7 @@ impl<'a, S: System> Bfs<'a, S> {
             panics: 0,
         };
         watch_begin(|| hist_desc(&self.cfg, self.alphabet, h));
+        watch_note("(state hook)");
         // state hook
         {
             let mut out = Out::default();
@@ -378,6 +396,7 @@ impl<'a, S: System> Bfs<'a, S> {
         if expand {
             for (i, op) in self.alphabet.iter().enumerate() {
                 let mut out = Out::default();
+                watch_note(&op.text);
                 let res = guarded(|| {
                     let mut st = self.replay(h);
                     self.sys.step(&self.cfg, &mut st, op, Some(&mut out));
